@@ -197,6 +197,27 @@ func datagram4(in in4, r *rand.Rand) ([]byte, net.IP) {
 	if r.Intn(3) == 0 {
 		d.Options[uint8(dhcpv4.OptionHostName)] = []byte("h" + strconv.Itoa(r.Intn(1000)))
 	}
+	// options that no rule of the reply table reads (round 9): Rapid Commit (RFC 4039, zero length), user class, client FQDN,
+	// client architecture, subnet selection, vendor class - the reply type and addressing must not depend on them
+	if r.Intn(3) == 0 {
+		for _, c := range []uint8{80, 77, 81, 93, 118, 60} {
+			if r.Intn(2) != 0 {
+				continue
+			}
+			switch c {
+			case 80:
+				d.Options[c] = []byte{}
+			case 93:
+				d.Options[c] = []byte{0, byte(r.Intn(17))}
+			case 118:
+				d.Options[c] = []byte{10, byte(r.Intn(256)), byte(r.Intn(256)), 0}
+			default:
+				body := make([]byte, 3+r.Intn(12))
+				r.Read(body)
+				d.Options[c] = body
+			}
+		}
+	}
 	yi := net.IPv4(192, 0, 2, byte(r.Intn(250)+1)).To4()
 	b := d.ToBytes()
 	if !in.parse {
